@@ -20,6 +20,12 @@ func init() {
 	add("C04", backpressureCases)
 	add("C10", backpressureCases)
 	add("C02", sharedMDCases)
+	add("C09", contOverrunCases)
+	add("C03", contOverrunCases)
+	add("C13", contOverrunCases)
+	add("C14", contOverrunCases)
+	add("C14", sendFailCases)
+	add("C12", callbackCfgCases)
 	add("C13", lateWritesCases)
 	add("C07", lateWritesCases)
 	add("C14", lateWritesCases)
